@@ -24,6 +24,13 @@ func VerifC12_MT() {
 		_, err = srv.MintMT(e.ctx, &types.MsgMintMT{Id: mtID, DenomId: denomID, Amount: a2, Sender: owner.String(), Recipient: alice.String()})
 		verifAssume(err == nil)
 	}
+	if verifChoice("moreTokens", 2) == 1 {
+		// two more tokens of the class, one of them held by two accounts: several balances per owner and class
+		_, err = srv.MintMT(e.ctx, &types.MsgMintMT{DenomId: denomID, Amount: 7, Sender: owner.String(), Recipient: owner.String()})
+		verifAssume(err == nil)
+		_, err = srv.MintMT(e.ctx, &types.MsgMintMT{DenomId: denomID, Amount: 8, Sender: owner.String(), Recipient: alice.String()})
+		verifAssume(err == nil)
+	}
 	if verifChoice("transfer", 2) == 1 {
 		t := verifUint64("xfer")
 		verifAssume(t >= 1 && t <= a1)
@@ -58,4 +65,42 @@ func VerifC12_MT() {
 	g2 := ExportGenesis(e2.ctx, k2)
 	verifAssert(len(g2.Collections) == len(g.Collections) && len(g2.Owners) == len(g.Owners), "a second export has the same shape")
 	verifAssert(verifDeepEqual(*g2, *g), "a second export equals the first")
+	// life goes on: the same next operations - a new class, a new token in the old class - on the original
+	// chain and on the restarted one hand out the same, fresh, ids
+	srv2 := keeper.NewMsgServerImpl(k2)
+	for _, c := range []struct {
+		s keeper.Keeper
+		x *vEnv
+	}{{k, e}, {k2, e2}} {
+		sv := srv
+		if c.x == e2 {
+			sv = srv2
+		}
+		_, errD := sv.IssueDenom(c.x.ctx, &types.MsgIssueDenom{Name: "second class", Sender: alice.String()})
+		_, errM := sv.MintMT(c.x.ctx, &types.MsgMintMT{DenomId: denomID, Amount: 5, Sender: owner.String(), Recipient: alice.String(), Data: []byte("n")})
+		verifAssert(errD == nil && errM == nil, "after a restart the module accepts the operations it accepted before")
+	}
+	ids := func(kk keeper.Keeper, x *vEnv) (ds, ms []string) {
+		for _, d := range kk.GetDenoms(x.ctx) {
+			ds = append(ds, d.Id)
+		}
+		for _, m := range kk.GetMTs(x.ctx, denomID) {
+			ms = append(ms, m.GetID())
+		}
+		return
+	}
+	dA, mA := ids(k, e)
+	dB, mB := ids(k2, e2)
+	distinct := func(xs []string) bool {
+		for i := range xs {
+			for j := i + 1; j < len(xs); j++ {
+				if xs[i] == xs[j] {
+					return false
+				}
+			}
+		}
+		return true
+	}
+	verifAssert(len(dA) == 2 && len(mA) == len(g.Collections[0].Mts)+1 && distinct(dA) && distinct(mA), "new classes and tokens get ids nobody has")
+	verifAssert(verifDeepEqual(dA, dB) && verifDeepEqual(mA, mB), "the restarted chain hands out the ids the original chain would have handed out (none reused)")
 }
